@@ -290,8 +290,21 @@ fn sample_alts(mut by_class: BTreeMap<String, Vec<Alt>>, budget: usize, rng: &mu
 // ------------------------------------------------------------------------------------------------
 // children
 // ------------------------------------------------------------------------------------------------
+/// Children are spawned from a private copy of this executable: the harness target directory is shared, and a
+/// concurrent `cargo build` unlinks / replaces the file behind a running lab.
+static CHILD_EXE: std::sync::OnceLock<PathBuf> = std::sync::OnceLock::new();
+
+fn child_exe() -> PathBuf {
+    CHILD_EXE.get().cloned().unwrap_or_else(|| std::env::current_exe().expect("current_exe"))
+}
+
+fn tool_failure(msg: String) -> ! {
+    eprintln!("backuplab: tool failure: {msg}");
+    std::process::exit(3);
+}
+
 fn child_recover(dir: &Path, cfg: &Value) -> Value {
-    let exe = std::env::current_exe().expect("current_exe");
+    let exe = child_exe();
     let out = std::process::Command::new(exe)
         .args(["recover", "--dir", dir.to_str().unwrap(), "--cfg", &cfg.to_string()])
         .env_remove("BACKUP_ALLOW_CLEAR")
@@ -304,13 +317,13 @@ fn child_recover(dir: &Path, cfg: &Value) -> Value {
         }
         Ok(o) => json!({"outcome": "failed", "state": [], "extra": 0,
                         "why": format!("child {:?}: {}", o.status, String::from_utf8_lossy(&o.stderr).chars().take(200).collect::<String>())}),
-        Err(e) => json!({"outcome": "failed", "state": [], "extra": 0, "why": format!("spawn: {e}")}),
+        // not being able to start the child says nothing about the restored directory
+        Err(e) => tool_failure(format!("cannot spawn the recovery child: {e}")),
     }
 }
 
 fn child_envrestore(backups: &Path, target: &Path, id: &str, pit: Option<u64>, envval: Option<&str>) -> (bool, String) {
-    let exe = std::env::current_exe().expect("current_exe");
-    let mut c = std::process::Command::new(exe);
+    let mut c = std::process::Command::new(child_exe());
     c.args(["envrestore", "--backups", backups.to_str().unwrap(), "--target", target.to_str().unwrap(), "--id", id]);
     if let Some(t) = pit {
         c.args(["--pit", &t.to_string()]);
@@ -325,7 +338,7 @@ fn child_envrestore(backups: &Path, target: &Path, id: &str, pit: Option<u64>, e
             let v: Value = s.lines().last().and_then(|l| serde_json::from_str(l).ok()).unwrap_or(json!({"res": "err", "why": "child died"}));
             (v["res"] == "ok", v["why"].as_str().unwrap_or("").to_string())
         }
-        Err(e) => (false, format!("spawn: {e}")),
+        Err(e) => tool_failure(format!("cannot spawn the restore child: {e}")),
     }
 }
 
@@ -922,6 +935,11 @@ fn main() {
     let behaviours = arg_value(&args, "--behaviours").map(|p| read_json_lines(&p).expect("behaviours")).unwrap_or_default();
     let timelines = arg_value(&args, "--timelines").map(|p| read_json_lines(&p).expect("timelines")).unwrap_or_default();
     let root = scratch_root();
+    let private_exe = root.join("backuplab.child");
+    match std::fs::copy("/proc/self/exe", &private_exe).or_else(|_| std::fs::copy(std::env::current_exe().expect("current_exe"), &private_exe)) {
+        Ok(_) => { let _ = CHILD_EXE.set(private_exe); }
+        Err(e) => tool_failure(format!("cannot make a private copy of the executable: {e}")),
+    }
     let marker = make_marker(&root);
     let mut lab = Lab { out: JsonOut::create(&out).expect("out"), root: root.clone(), marker, seed, alts_budget, sleeps_left: sleeps, thorough,
                         n_restores: 0, n_alt: 0, n_children: 0, n_backups: 0, n_backup_failed: 0, n_ops: 0, n_sleeps: 0 };
